@@ -675,4 +675,723 @@ theorem run_sinv {s : Store} {wants : List Id} {tagged : List (Id × Id)}
       · rename_i st1 hst1
         exact run_sinv fuel st1 st' (step_sinv inv hst1) h
 
+/-- The edges the walk follows from a loaded object (a commit's parents are not among them: the
+commits to send were fixed by `_collect_ancestors`). -/
+def walkKids : Obj → List Id
+  | .commit t _ => [t]
+  | .tree es => treeKids es
+  | .blob => []
+  | .tag y => [y]
+
+theorem expand_complete {s : Store} {x : Id} {kids : List (Id × Bool)} {o : Obj}
+    (h : expand s x = .ok kids) (hs : s x = some o) : ∀ c ∈ walkKids o, ∃ lf, (c, lf) ∈ kids := by
+  unfold expand at h
+  rw [hs] at h
+  cases o with
+  | commit t ps =>
+    simp at h; cases h; intro c hc; simp [walkKids] at hc; subst hc
+    exact ⟨Gen.mofCommitTreeLeaf, by simp⟩
+  | tree es =>
+    simp at h; cases h
+    intro c hc
+    simp only [walkKids, treeKids, List.mem_map, List.mem_filter] at hc
+    obtain ⟨e, ⟨he, hg⟩, rfl⟩ := hc
+    refine ⟨Gen.mofEntryLeafIsNotDir && e.1 != Kind.dir, ?_⟩
+    simp only [List.mem_filterMap]
+    refine ⟨e, he, ?_⟩
+    have hne : ¬ e.1 = Kind.gitlink := by simpa using hg
+    simp [hne]
+  | blob => simp [walkKids]
+  | tag y =>
+    simp at h; cases h; intro c hc; simp [walkKids] at hc; subst hc
+    exact ⟨Gen.mofTagTargetLeaf, by simp⟩
+
+/-- Typing of the entries produced by loading an object of a well-typed store. -/
+theorem expand_entries {s : Store} {x : Id} {kids : List (Id × Bool)} (hwt : WellTyped s)
+    (h : expand s x = .ok kids) :
+    ∀ e ∈ kids, (e.2 = true → s e.1 = none ∨ s e.1 = some .blob) ∧
+      (e.2 = false → (s x = some (.tag e.1)) ∨ isTreeOrAbsent (s e.1) = true) := by
+  unfold expand at h
+  split at h
+  · cases h
+  · rename_i t ps hs
+    cases h
+    intro e he
+    simp at he; subst he
+    have := hwt x _ hs
+    simp only at this
+    exact ⟨by simp [Gen.mofCommitTreeLeaf], fun _ => .inr this⟩
+  · rename_i es hs
+    cases h
+    intro e he
+    simp only [List.mem_filterMap] at he
+    obtain ⟨a, ha, hf⟩ := he
+    have hw := hwt x _ hs
+    simp only at hw
+    split at hf
+    · cases hf
+    · rename_i hcond
+      cases hf
+      have hg : a.1 ≠ Kind.gitlink := by
+        intro hgl; apply hcond; simp [Gen.mofTreeSkipsGitlinks, hgl]
+      refine ⟨?_, ?_⟩
+      · intro hl
+        simp [Gen.mofEntryLeafIsNotDir] at hl
+        have hfile : a.1 = Kind.file := by
+          cases hk : a.1 <;> simp_all
+        have := (hw a ha).2 hfile
+        cases hsa : s a.2 with
+        | none => exact .inl rfl
+        | some o => cases o <;> simp_all [isBlobOrAbsent]
+      · intro hl
+        simp [Gen.mofEntryLeafIsNotDir] at hl
+        exact .inr ((hw a ha).1 hl)
+  · rename_i t hs
+    cases h
+    intro e he
+    simp at he; subst he
+    exact ⟨by simp [Gen.mofTagTargetLeaf], fun _ => .inl hs⟩
+  · cases h; simp
+
+/-! ## completeness invariant of the walk -/
+
+section Complete
+variable {s : Store} {tagged : List (Id × Id)} (Rh : Id → Prop) (M D0 WT : List Id)
+
+/-- `c` is taken care of: already done, still queued, or held by the receiver. -/
+def Cov (st : St) (c : Id) : Prop := c ∈ st.done ∨ (∃ lf, (c, lf) ∈ st.todo) ∨ Rh c
+
+/-- Completeness invariant (`s`, `tagged` and the sets computed by `__init__` are fixed):
+`M` = missing commits, `D0` = initial `sha_done`, `WT` = tags reachable through tag chains from the
+wants. -/
+structure CInv (s : Store) (tagged : List (Id × Id)) (Rh : Id → Prop) (M D0 WT : List Id) (st : St) :
+    Prop where
+  done_split : ∀ x ∈ st.done, x ∈ D0 ∨ x ∈ st.sent
+  sent_kids : ∀ x ∈ st.sent, ∀ o, s x = some o → ∀ c ∈ walkKids o, Cov Rh st c
+  sent_commit : ∀ x ∈ st.sent, ∀ t ps, s x = some (.commit t ps) → x ∈ M
+  sent_tag : ∀ x ∈ st.sent, ∀ t, tagged.lookup x = some t → Cov Rh st t
+  nonleaf : ∀ e ∈ st.todo, e.2 = false →
+    (∀ t ps, s e.1 = some (.commit t ps) → e.1 ∈ M ∨ e.1 ∈ D0) ∧
+    (∀ y, s e.1 = some (.tag y) → e.1 ∈ WT)
+  leaf : ∀ e ∈ st.todo, e.2 = true →
+    s e.1 = none ∨ s e.1 = some .blob ∨ ∃ y, s e.1 = some (.tag y) ∧ y ∈ st.done
+  d0 : ∀ x ∈ D0, x ∈ st.done
+
+theorem mem_eraseIdx_or {α : Type} {l : List α} {i : Nat} {a b : α} (hget : l[i]? = some a)
+    (hb : b ∈ l) : b = a ∨ b ∈ l.eraseIdx i := by
+  induction l generalizing i with
+  | nil => simp at hb
+  | cons h t ih =>
+    cases i with
+    | zero =>
+      simp at hget; subst hget
+      simp at hb ⊢
+      exact hb
+    | succ j =>
+      simp at hget
+      simp only [List.mem_cons] at hb
+      rcases hb with rfl | hb
+      · exact .inr (by simp [List.eraseIdx])
+      · rcases ih hget hb with h1 | h1
+        · exact .inl h1
+        · exact .inr (by simp [List.eraseIdx, h1])
+
+theorem mem_addTodo_of {done : List Id} {entries todo : List (Id × Bool)} {e : Id × Bool}
+    (h : e ∈ entries) (hd : e.1 ∉ done) : e ∈ addTodo done entries todo := by
+  simp only [addTodo, List.mem_append, List.mem_filter]
+  exact .inl ⟨h, by simpa using hd⟩
+
+theorem mem_addTodo_old {done : List Id} {entries todo : List (Id × Bool)} {e : Id × Bool}
+    (h : e ∈ todo) : e ∈ addTodo done entries todo := by
+  simp only [addTodo, List.mem_append]
+  exact .inr h
+
+/-- `Cov` is monotone along the walk. -/
+theorem cov_step {i : Nat} {st st' : St} (h : step s tagged i st = .ok st') {c : Id}
+    (hc : Cov Rh st c) : Cov Rh st' c := by
+  unfold step at h
+  split at h
+  · cases h; exact hc
+  · rename_i x leaf hget
+    split at h
+    · rename_i hxd
+      cases h
+      rcases hc with hc | ⟨lf, hc⟩ | hc
+      · exact .inl hc
+      · rcases mem_eraseIdx_or hget hc with h1 | h1
+        · cases h1; exact .inl hxd
+        · exact .inr (.inl ⟨lf, h1⟩)
+      · exact .inr (.inr hc)
+    · split at h
+      · cases h
+      · cases h
+        rcases hc with hc | ⟨lf, hc⟩ | hc
+        · exact .inl (by simp [hc])
+        · rcases mem_eraseIdx_or hget hc with h1 | h1
+          · cases h1; exact .inl (by simp)
+          · exact .inr (.inl ⟨lf, mem_addTodo_old (mem_addTodo_old h1)⟩)
+        · exact .inr (.inr hc)
+
+variable (hwt : WellTyped s) (htg : TaggedDirect s tagged)
+  (hWT : ∀ t ∈ WT, ∀ y, s t = some (.tag y) →
+    (∀ t' ps, s y = some (.commit t' ps) → y ∈ M ∨ y ∈ D0) ∧ (∀ z, s y = some (.tag z) → y ∈ WT))
+
+include hwt htg hWT in
+theorem step_cinv {i : Nat} {st st' : St} (inv : CInv s tagged Rh M D0 WT st)
+    (h : step s tagged i st = .ok st') : CInv s tagged Rh M D0 WT st' := by
+  have hcov := fun c (hc : Cov Rh st c) => cov_step (tagged := tagged) Rh h hc
+  unfold step at h
+  split at h
+  · cases h; exact inv
+  · rename_i x leaf hget
+    have hmem : (x, leaf) ∈ st.todo := List.mem_of_getElem? hget
+    have herase : ∀ e ∈ st.todo.eraseIdx i, e ∈ st.todo := fun e he => List.mem_of_mem_eraseIdx he
+    split at h
+    · -- already done: the entry is dropped
+      cases h
+      exact { done_split := inv.done_split
+              sent_kids := fun y hy o hs c hc => hcov c (inv.sent_kids y hy o hs c hc)
+              sent_commit := inv.sent_commit
+              sent_tag := fun y hy t ht => hcov t (inv.sent_tag y hy t ht)
+              nonleaf := fun e he => inv.nonleaf e (herase e he)
+              leaf := fun e he => inv.leaf e (herase e he)
+              d0 := inv.d0 }
+    · rename_i hxd
+      split at h
+      · cases h
+      · rename_i kids hkids
+        cases h
+        -- facts about the new entries
+        have hkidsT : ∀ e ∈ kids, (e.2 = true → s e.1 = none ∨ s e.1 = some .blob) ∧
+            (e.2 = false → (leaf = false ∧ s x = some (.tag e.1)) ∨ isTreeOrAbsent (s e.1) = true) := by
+          cases leaf with
+          | true => simp at hkids; cases hkids; simp
+          | false =>
+            simp at hkids
+            intro e he
+            have := expand_entries hwt hkids e he
+            exact ⟨this.1, fun hl => (this.2 hl).imp (fun h1 => ⟨rfl, h1⟩) id⟩
+        refine { done_split := ?_, sent_kids := ?_, sent_commit := ?_, sent_tag := ?_, nonleaf := ?_,
+                 leaf := ?_, d0 := ?_ }
+        · intro y hy
+          simp only [List.mem_cons] at hy
+          rcases hy with rfl | hy
+          · exact .inr (by simp)
+          · exact (inv.done_split y hy).imp id (fun h1 => by simp [h1])
+        · intro y hy o hs c hc
+          simp only [List.mem_cons] at hy
+          rcases hy with rfl | hy
+          · -- the object just yielded
+            cases leaf with
+            | false =>
+              simp at hkids
+              obtain ⟨lf, hlf⟩ := expand_complete hkids hs c hc
+              by_cases hcd : c ∈ st.done
+              · exact .inl (by simp [hcd])
+              · exact .inr (.inl ⟨lf, mem_addTodo_old (mem_addTodo_of hlf hcd)⟩)
+            | true =>
+              rcases inv.leaf _ hmem rfl with h1 | h1 | ⟨z, h1, hz⟩
+              · simp [h1] at hs
+              · simp only [h1] at hs; cases hs; simp [walkKids] at hc
+              · simp only [h1] at hs; cases hs; simp [walkKids] at hc; subst hc
+                exact .inl (by simp [hz])
+          · exact hcov c (inv.sent_kids y hy o hs c hc)
+        · intro y hy t ps hs
+          simp only [List.mem_cons] at hy
+          rcases hy with rfl | hy
+          · cases leaf with
+            | false =>
+              rcases (inv.nonleaf _ hmem rfl).1 t ps hs with h1 | h1
+              · exact h1
+              · exact absurd (inv.d0 _ h1) hxd
+            | true =>
+              rcases inv.leaf _ hmem rfl with h1 | h1 | ⟨z, h1, _⟩ <;> simp [h1] at hs
+          · exact inv.sent_commit y hy t ps hs
+        · intro y hy t ht
+          simp only [List.mem_cons] at hy
+          rcases hy with rfl | hy
+          · by_cases htd : t ∈ st.done
+            · exact .inl (by simp [htd])
+            · refine .inr (.inl ⟨Gen.mofTaggedLeaf, mem_addTodo_of ?_ htd⟩)
+              simp [ht]
+          · exact hcov t (inv.sent_tag y hy t ht)
+        · intro e he hl
+          rcases mem_addTodo he with he | he
+          · -- tagged entry is a leaf
+            split at he
+            · simp at he; subst he; simp [Gen.mofTaggedLeaf] at hl
+            · simp at he
+          · rcases mem_addTodo he with he | he
+            · rcases (hkidsT e he).2 hl with ⟨hlf, h1⟩ | h1
+              · -- target of a tag reachable from the wants
+                subst hlf
+                have hxWT := (inv.nonleaf _ hmem rfl).2 e.1 h1
+                exact hWT x hxWT e.1 h1
+              · refine ⟨?_, ?_⟩
+                · intro t ps hs; simp [hs, isTreeOrAbsent] at h1
+                · intro y hs; simp [hs, isTreeOrAbsent] at h1
+            · exact inv.nonleaf e (herase e he) hl
+        · intro e he hl
+          rcases mem_addTodo he with he | he
+          · split at he
+            · rename_i t ht
+              simp at he; subst he
+              rcases htg x t ht with h1 | h1
+              · exact .inr (.inr ⟨x, h1, by simp⟩)
+              · exact .inl h1
+            · simp at he
+          · rcases mem_addTodo he with he | he
+            · rcases (hkidsT e he).1 hl with h1 | h1
+              · exact .inl h1
+              · exact .inr (.inl h1)
+            · rcases inv.leaf e (herase e he) hl with h1 | h1 | ⟨z, h1, hz⟩
+              · exact .inl h1
+              · exact .inr (.inl h1)
+              · exact .inr (.inr ⟨z, h1, by simp [hz]⟩)
+        · intro y hy
+          simp [inv.d0 y hy]
+
+include hwt htg hWT in
+theorem run_cinv {pick : Nat → List (Id × Bool) → Nat} :
+    ∀ (fuel : Nat) (st st' : St), CInv s tagged Rh M D0 WT st → run s tagged pick fuel st = .ok st' →
+      CInv s tagged Rh M D0 WT st' ∧ st'.todo = [] ∧ ∀ c, Cov Rh st c → Cov Rh st' c
+  | 0, st, st', inv, h => by
+    unfold run at h
+    split at h
+    · rename_i hnil; cases h; exact ⟨inv, hnil, fun _ hc => hc⟩
+    · cases h
+  | fuel + 1, st, st', inv, h => by
+    unfold run at h
+    split at h
+    · rename_i hnil; cases h; exact ⟨inv, hnil, fun _ hc => hc⟩
+    · split at h
+      · cases h
+      · rename_i st1 hst1
+        have ih := run_cinv fuel st1 st' (step_cinv Rh M D0 WT hwt htg hWT inv hst1) h
+        exact ⟨ih.1, ih.2.1, fun c hc => ih.2.2 c (cov_step Rh hst1 hc)⟩
+
+end Complete
+
+theorem present_sub (s : Store) (l : List Id) : ∀ x ∈ present s l, x ∈ l := by
+  intro x hx; simp only [present, List.mem_filter] at hx; exact hx.1
+
+theorem init_sinv {s : Store} {fuel : Nat} {haves wants shallow : List Id} {st0 : St}
+    (tagged : List (Id × Id)) (h : init s fuel haves wants shallow = .ok st0) :
+    SInv s wants tagged st0 := by
+  obtain ⟨p⟩ := init_parts h
+  have hw := split_sound s false fuel wants p.w p.wsplit
+  have up : ∀ x, Reach s (present s wants) x → Reach s wants x :=
+    fun x hx => Reach.mono (present_sub s wants) hx
+  have hmc := collectAncestors_sound s p.anc.1 shallow (Reach s wants)
+    (fun y t ps x hy hs hx => .step hy hs (by simp [children, hx])) fuel p.w.1 [] [] p.mc p.hmc
+    (fun x hx => up x (hw.1 x hx).1) (by simp) (by simp)
+  refine ⟨?_, by simp [p.hsent]⟩
+  intro e he
+  rw [p.htodo] at he
+  simp only [List.mem_append, List.mem_map, List.mem_filter] at he
+  rcases he with (⟨c, hc, rfl⟩ | ⟨t, ⟨ht, _⟩, rfl⟩) | ⟨o, ⟨ho, _⟩, rfl⟩
+  · exact .inl (hmc.1 c hc)
+  · exact .inl (up t (hw.2.1 t ht).1)
+  · exact .inl (up o (hw.2.2 o ho).1)
+
+/-! ## completeness of `MissingObjectFinder` (no shallow cut) -/
+
+/-- The invariant holds for the state `__init__` builds (any `Rh`), together with the fact about
+tag targets that `step_cinv` needs. -/
+theorem init_cinv {s : Store} {tagged : List (Id × Id)} {fuel : Nat} {haves wants : List Id} {st0 : St}
+    (Rh : Id → Prop) (p : InitParts s fuel haves wants [] st0) :
+    (∀ t ∈ p.w.2.1, ∀ y, s t = some (.tag y) →
+      (∀ t' ps, s y = some (.commit t' ps) → y ∈ p.mc.1 ∨ y ∈ st0.done) ∧
+      (∀ z, s y = some (.tag z) → y ∈ p.w.2.1)) ∧
+    CInv s tagged Rh p.mc.1 st0.done p.w.2.1 st0 := by
+  have hws := split_sound s false fuel wants p.w p.wsplit
+  have hwtag := split_tagclosed s false fuel wants p.w p.wsplit
+  have hrhself := remoteHas_self s fuel p.mc.2 p.rh p.hrh
+  have hcompl := collectAncestors_complete s p.anc.1 fuel p.w.1 [] [] p.mc p.hmc
+    (by intro c hc; simp at hc)
+  have hC1 := hcompl.1
+  have hC4 := hcompl.2.2.2
+  have hmc2D0 : ∀ x ∈ p.mc.2, x ∈ st0.done := by
+    intro x hx; rw [p.hdone]; simp [hrhself x hx]
+  refine ⟨?_, ?_⟩
+  · intro t ht y hs
+    have hy := hwtag t ht y hs
+    refine ⟨?_, ?_⟩
+    · intro t' ps hsy
+      rcases hy with (h1 | h1 | h1) | h1
+      · rcases hC4 y h1 with h2 | h2
+        · exact .inr (hmc2D0 y h2.2)
+        · exact .inl h2
+      · obtain ⟨z, hz⟩ := (hws.2.1 y h1).2; simp [hz] at hsy
+      · exact absurd hsy ((hws.2.2 y h1).2.2.1 t' ps)
+      · simp [h1] at hsy
+    · intro z hsy
+      rcases hy with (h1 | h1 | h1) | h1
+      · obtain ⟨t', ps, hz⟩ := (hws.1 y h1).2; simp [hz] at hsy
+      · exact h1
+      · exact absurd hsy ((hws.2.2 y h1).2.2.2 z)
+      · simp [h1] at hsy
+  · refine { done_split := fun x hx => .inl hx, sent_kids := ?_, sent_commit := ?_, sent_tag := ?_,
+             nonleaf := ?_, leaf := ?_, d0 := fun x hx => hx }
+    · intro x hx; simp [p.hsent] at hx
+    · intro x hx; simp [p.hsent] at hx
+    · intro x hx; simp [p.hsent] at hx
+    · intro e he _
+      rw [p.htodo] at he
+      simp only [List.mem_append, List.mem_map, List.mem_filter] at he
+      rcases he with (⟨c, hc, rfl⟩ | ⟨t, ⟨ht, _⟩, rfl⟩) | ⟨o, ⟨ho, _⟩, rfl⟩
+      · refine ⟨fun _ _ _ => .inl hc, ?_⟩
+        intro y hsy
+        obtain ⟨t', ps, hz, _⟩ := hC1 c hc
+        simp [hz] at hsy
+      · refine ⟨?_, fun _ _ => ht⟩
+        intro t' ps hsy
+        obtain ⟨z, hz⟩ := (hws.2.1 t ht).2
+        simp [hz] at hsy
+      · refine ⟨?_, ?_⟩
+        · intro t' ps hsy; exact absurd hsy ((hws.2.2 o ho).2.2.1 t' ps)
+        · intro y hsy; exact absurd hsy ((hws.2.2 o ho).2.2.2 y)
+    · intro e he hl
+      rw [p.htodo] at he
+      simp only [List.mem_append, List.mem_map, List.mem_filter] at he
+      rcases he with (⟨c, _, rfl⟩ | ⟨t, _, rfl⟩) | ⟨o, _, rfl⟩ <;> simp at hl
+
+/-! ## the selected set does not depend on the pop order -/
+
+/-- Order-free description of what the walk yields: start from the initial queue, follow the walk's
+edges and the auto-tag map, never enter the initial `sha_done`. -/
+inductive Sel (s : Store) (tagged : List (Id × Id)) (D0 R0 : List Id) : Id → Prop where
+  | root {x : Id} : x ∈ R0 → x ∉ D0 → Sel s tagged D0 R0 x
+  | kid {y c : Id} {o : Obj} : Sel s tagged D0 R0 y → s y = some o → c ∈ walkKids o → c ∉ D0 →
+      Sel s tagged D0 R0 c
+  | tag {y t : Id} : Sel s tagged D0 R0 y → tagged.lookup y = some t → t ∉ D0 → Sel s tagged D0 R0 t
+
+theorem expand_walk {s : Store} {x : Id} {kids : List (Id × Bool)} (h : expand s x = .ok kids) :
+    ∃ o, s x = some o ∧ ∀ e ∈ kids, e.1 ∈ walkKids o := by
+  unfold expand at h
+  split at h
+  · cases h
+  · rename_i t ps hs
+    cases h
+    exact ⟨_, hs, by simp [walkKids]⟩
+  · rename_i es hs
+    cases h
+    refine ⟨_, hs, ?_⟩
+    intro e he
+    simp only [List.mem_filterMap] at he
+    obtain ⟨a, ha, hf⟩ := he
+    split at hf
+    · cases hf
+    · rename_i hcond
+      cases hf
+      have hg : a.1 ≠ Kind.gitlink := by
+        intro hgl; apply hcond; simp [Gen.mofTreeSkipsGitlinks, hgl]
+      simpa [walkKids] using mem_treeKids ha hg
+  · rename_i t hs
+    cases h
+    exact ⟨_, hs, by simp [walkKids]⟩
+  · rename_i hs
+    cases h
+    exact ⟨_, hs, by simp⟩
+
+/-- Everything queued outside `D0`, and everything yielded, is selected. -/
+def SelInv (s : Store) (tagged : List (Id × Id)) (D0 R0 : List Id) (st : St) : Prop :=
+  (∀ e ∈ st.todo, e.1 ∉ D0 → Sel s tagged D0 R0 e.1) ∧ (∀ x ∈ st.sent, Sel s tagged D0 R0 x) ∧
+  (∀ x ∈ D0, x ∈ st.done)
+
+theorem step_selinv {s : Store} {tagged : List (Id × Id)} {D0 R0 : List Id} {i : Nat} {st st' : St}
+    (inv : SelInv s tagged D0 R0 st) (h : step s tagged i st = .ok st') : SelInv s tagged D0 R0 st' := by
+  unfold step at h
+  split at h
+  · cases h; exact inv
+  · rename_i x leaf hget
+    have hmem : (x, leaf) ∈ st.todo := List.mem_of_getElem? hget
+    have herase : ∀ e ∈ st.todo.eraseIdx i, e ∈ st.todo := fun e he => List.mem_of_mem_eraseIdx he
+    split at h
+    · cases h
+      exact ⟨fun e he => inv.1 e (herase e he), inv.2.1, inv.2.2⟩
+    · rename_i hxd
+      split at h
+      · cases h
+      · rename_i kids hkids
+        cases h
+        have hxD0 : x ∉ D0 := fun hx => hxd (inv.2.2 x hx)
+        have hx : Sel s tagged D0 R0 x := inv.1 _ hmem hxD0
+        refine ⟨?_, ?_, ?_⟩
+        · intro e he hne
+          rcases mem_addTodo he with he | he
+          · split at he
+            · rename_i t ht
+              simp at he; subst he
+              exact .tag hx ht hne
+            · simp at he
+          · rcases mem_addTodo he with he | he
+            · cases leaf with
+              | true => simp at hkids; cases hkids; simp at he
+              | false =>
+                simp at hkids
+                obtain ⟨o, hs, hk⟩ := expand_walk hkids
+                exact .kid hx hs (hk e he) hne
+            · exact inv.1 e (herase e he) hne
+        · intro y hy
+          simp only [List.mem_cons] at hy
+          rcases hy with rfl | hy
+          · exact hx
+          · exact inv.2.1 y hy
+        · intro y hy; simp [inv.2.2 y hy]
+
+theorem run_selinv {s : Store} {tagged : List (Id × Id)} {D0 R0 : List Id}
+    {pick : Nat → List (Id × Bool) → Nat} :
+    ∀ (fuel : Nat) (st st' : St), SelInv s tagged D0 R0 st → run s tagged pick fuel st = .ok st' →
+      SelInv s tagged D0 R0 st'
+  | 0, st, st', inv, h => by
+    unfold run at h
+    split at h
+    · cases h; exact inv
+    · cases h
+  | fuel + 1, st, st', inv, h => by
+    unfold run at h
+    split at h
+    · cases h; exact inv
+    · split at h
+      · cases h
+      · rename_i st1 hst1
+        exact run_selinv fuel st1 st' (step_selinv inv hst1) h
+
+/-- The yielded set is exactly `Sel`, whatever the pop order. -/
+theorem run_eq_sel {s : Store} {tagged : List (Id × Id)} {pick : Nat → List (Id × Bool) → Nat}
+    {fuel : Nat} {haves wants : List Id} {st0 st : St} (hwt : WellTyped s) (htg : TaggedDirect s tagged)
+    (h0 : init s fuel haves wants [] = .ok st0) (hrun : run s tagged pick fuel st0 = .ok st) :
+    ∀ x, x ∈ st.sent ↔ Sel s tagged st0.done (st0.todo.map (·.1)) x := by
+  obtain ⟨p⟩ := init_parts h0
+  have sel0 : SelInv s tagged st0.done (st0.todo.map (·.1)) st0 := by
+    refine ⟨?_, by simp [p.hsent], fun x hx => hx⟩
+    intro e he hne
+    exact .root (List.mem_map.mpr ⟨e, he, rfl⟩) hne
+  have selF := run_selinv fuel st0 st sel0 hrun
+  obtain ⟨hWT, inv0⟩ := init_cinv (tagged := tagged) (fun _ => False) p
+  obtain ⟨inv, hnil, hmono⟩ := run_cinv (fun _ => False) p.mc.1 st0.done p.w.2.1 hwt htg hWT
+    fuel st0 st inv0 hrun
+  have hfin : ∀ c, Cov (fun _ => False) st c → c ∈ st.done := by
+    intro c hc
+    rcases hc with hc | ⟨lf, hc⟩ | hc
+    · exact hc
+    · simp [hnil] at hc
+    · exact hc.elim
+  have hsent : ∀ c, c ∈ st.done → c ∉ st0.done → c ∈ st.sent := by
+    intro c hc hne
+    rcases inv.done_split c hc with h1 | h1
+    · exact absurd h1 hne
+    · exact h1
+  intro x
+  refine ⟨selF.2.1 x, ?_⟩
+  intro hx
+  induction hx with
+  | root hr hne =>
+    rename_i x
+    obtain ⟨e, he, rfl⟩ := List.mem_map.mp hr
+    exact hsent _ (hfin _ (hmono _ (.inr (.inl ⟨e.2, he⟩)))) hne
+  | kid _ hs hc hne ih => exact hsent _ (hfin _ (inv.sent_kids _ ih _ hs _ hc)) hne
+  | tag _ ht hne ih => exact hsent _ (hfin _ (inv.sent_tag _ ih _ ht)) hne
+
+theorem mof_complete_core {s : Store} {tagged : List (Id × Id)} {pick : Nat → List (Id × Bool) → Nat}
+    {fuel : Nat} {haves wants sent : List Id} (hwt : WellTyped s) (htg : TaggedDirect s tagged)
+    (h : mof s tagged pick fuel haves wants [] = .ok sent) :
+    ∀ x, Reach s wants x → x ∈ sent ∨ Reach s (present s haves) x := by
+  unfold mof at h
+  split at h
+  · cases h
+  rename_i st0 h0
+  split at h
+  · cases h
+  rename_i st hrun
+  cases h
+  obtain ⟨p⟩ := init_parts h0
+  -- what the receiver holds
+  have hRh : EdgeClosed s (Reach s (present s haves)) := reach_edgeClosed s _
+  have hhs := split_sound s true fuel haves p.hh p.hsplit
+  have hws := split_sound s false fuel wants p.w p.wsplit
+  have hwself := split_self s false fuel wants p.w p.wsplit
+  have hwtag := split_tagclosed s false fuel wants p.w p.wsplit
+  have hanc := collectAncestors_sound s [] [] (Reach s (present s haves))
+    (fun y t ps x hy hs hx => .step hy hs (by simp [children, hx])) fuel p.hh.1 [] [] p.anc p.hanc
+    (fun x hx => (hhs.1 x hx).1) (by simp) (by simp)
+  have hbases := collectAncestors_sound s p.anc.1 [] (fun _ => True) (fun _ _ _ _ _ _ _ => trivial)
+    fuel p.w.1 [] [] p.mc p.hmc (by simp) (by simp) (by simp)
+  have hmc2 : ∀ x ∈ p.mc.2, Reach s (present s haves) x :=
+    fun x hx => hanc.1 x (hbases.2 x hx).2
+  have hrh := remoteHas_sound s _ hRh fuel p.mc.2 p.rh p.hrh hmc2
+  have hrhself := remoteHas_self s fuel p.mc.2 p.rh p.hrh
+  have hD0 : ∀ x ∈ st0.done, Reach s (present s haves) x := by
+    intro x hx
+    rw [p.hdone] at hx
+    simp only [List.mem_append] at hx
+    rcases hx with hx | hx
+    · exact (hhs.2.1 x hx).1
+    · exact hrh x hx
+  have hcompl := collectAncestors_complete s p.anc.1 fuel p.w.1 [] [] p.mc p.hmc
+    (by intro c hc; simp at hc)
+  have hC1 := hcompl.1
+  have hC4 := hcompl.2.2.2
+  have hmc2D0 : ∀ x ∈ p.mc.2, x ∈ st0.done := by
+    intro x hx; rw [p.hdone]; simp [hrhself x hx]
+  -- targets of the tags reachable from the wants
+  have hWT : ∀ t ∈ p.w.2.1, ∀ y, s t = some (.tag y) →
+      (∀ t' ps, s y = some (.commit t' ps) → y ∈ p.mc.1 ∨ y ∈ st0.done) ∧
+      (∀ z, s y = some (.tag z) → y ∈ p.w.2.1) := by
+    intro t ht y hs
+    have hy := hwtag t ht y hs
+    refine ⟨?_, ?_⟩
+    · intro t' ps hsy
+      rcases hy with (h1 | h1 | h1) | h1
+      · rcases hC4 y h1 with h2 | h2
+        · exact .inr (hmc2D0 y h2.2)
+        · exact .inl h2
+      · obtain ⟨z, hz⟩ := (hws.2.1 y h1).2; simp [hz] at hsy
+      · exact absurd hsy ((hws.2.2 y h1).2.2.1 t' ps)
+      · simp [h1] at hsy
+    · intro z hsy
+      rcases hy with (h1 | h1 | h1) | h1
+      · obtain ⟨t', ps, hz⟩ := (hws.1 y h1).2; simp [hz] at hsy
+      · exact h1
+      · exact absurd hsy ((hws.2.2 y h1).2.2.2 z)
+      · simp [h1] at hsy
+  -- the invariant holds initially
+  have inv0 : CInv s tagged (Reach s (present s haves)) p.mc.1 st0.done p.w.2.1 st0 := by
+    refine { done_split := fun x hx => .inl hx, sent_kids := ?_, sent_commit := ?_, sent_tag := ?_,
+             nonleaf := ?_, leaf := ?_, d0 := fun x hx => hx }
+    · intro x hx; simp [p.hsent] at hx
+    · intro x hx; simp [p.hsent] at hx
+    · intro x hx; simp [p.hsent] at hx
+    · intro e he _
+      rw [p.htodo] at he
+      simp only [List.mem_append, List.mem_map, List.mem_filter] at he
+      rcases he with (⟨c, hc, rfl⟩ | ⟨t, ⟨ht, _⟩, rfl⟩) | ⟨o, ⟨ho, _⟩, rfl⟩
+      · refine ⟨fun _ _ _ => .inl hc, ?_⟩
+        intro y hsy
+        obtain ⟨t', ps, hz, _⟩ := hC1 c hc
+        simp [hz] at hsy
+      · refine ⟨?_, fun _ _ => ht⟩
+        intro t' ps hsy
+        obtain ⟨z, hz⟩ := (hws.2.1 t ht).2
+        simp [hz] at hsy
+      · refine ⟨?_, ?_⟩
+        · intro t' ps hsy; exact absurd hsy ((hws.2.2 o ho).2.2.1 t' ps)
+        · intro y hsy; exact absurd hsy ((hws.2.2 o ho).2.2.2 y)
+    · intro e he hl
+      rw [p.htodo] at he
+      simp only [List.mem_append, List.mem_map, List.mem_filter] at he
+      rcases he with (⟨c, _, rfl⟩ | ⟨t, _, rfl⟩) | ⟨o, _, rfl⟩ <;> simp at hl
+  obtain ⟨inv, hnil, hmono⟩ := run_cinv (Reach s (present s haves)) p.mc.1 st0.done p.w.2.1 hwt htg hWT
+    fuel st0 st inv0 hrun
+  -- at the end nothing is queued
+  have hfin : ∀ c, Cov (Reach s (present s haves)) st c → c ∈ st.done ∨ Reach s (present s haves) c := by
+    intro c hc
+    rcases hc with hc | ⟨lf, hc⟩ | hc
+    · exact .inl hc
+    · simp [hnil] at hc
+    · exact .inr hc
+  have hqueued : ∀ e ∈ st0.todo, e.1 ∈ st.done ∨ Reach s (present s haves) e.1 :=
+    fun e he => hfin e.1 (hmono e.1 (.inr (.inl ⟨e.2, he⟩)))
+  have hM : ∀ c ∈ p.mc.1, c ∈ st.done ∨ Reach s (present s haves) c := by
+    intro c hc
+    exact hqueued (c, false) (by rw [p.htodo]; simp [hc])
+  -- main induction
+  have main : ∀ x, Reach s wants x → x ∈ st.done ∨ Reach s (present s haves) x := by
+    intro x hx
+    refine Reach.induct (P := fun x => x ∈ st.done ∨ Reach s (present s haves) x) ?_ ?_ hx
+    · intro r hr
+      have hpres := (hwself r hr).2 rfl
+      rcases (hwself r hr).1 hpres with h1 | h1 | h1
+      · rcases hC4 r h1 with h2 | h2
+        · exact .inr (hanc.1 r h2.1)
+        · exact hM r h2
+      · by_cases hht : r ∈ p.hh.2.1
+        · exact .inr (hhs.2.1 r hht).1
+        · exact hqueued (r, false) (by rw [p.htodo]; simp [h1, hht])
+      · by_cases hho : r ∈ p.hh.2.2
+        · exact .inr (hhs.2.2 r hho).1
+        · exact hqueued (r, false) (by rw [p.htodo]; simp [h1, hho])
+    · intro y o c hy hs hc
+      rcases hy with hy | hy
+      · rcases inv.done_split y hy with hy0 | hys
+        · exact .inr (.step (hD0 y hy0) hs hc)
+        · cases o with
+          | commit t ps =>
+            simp only [children, List.mem_cons] at hc
+            rcases hc with rfl | hc
+            · exact hfin _ (inv.sent_kids y hys _ hs _ (by simp [walkKids]))
+            · have hyM := inv.sent_commit y hys t ps hs
+              obtain ⟨t', ps', hs', hp⟩ := hC1 y hyM
+              rw [hs] at hs'; cases hs'
+              rcases hp c hc with h1 | h1
+              · exact .inr (hanc.1 c h1)
+              · exact hM c h1
+          | tree es => exact hfin _ (inv.sent_kids y hys _ hs c (by simpa [walkKids, children] using hc))
+          | blob => simp [children] at hc
+          | tag z => exact hfin _ (inv.sent_kids y hys _ hs c (by simpa [walkKids, children] using hc))
+      · exact .inr (.step hy hs hc)
+  intro x hx
+  rcases main x hx with h1 | h1
+  · rcases inv.done_split x h1 with h2 | h2
+    · exact .inr (hD0 x h2)
+    · exact .inl h2
+  · exact .inr h1
+
+/-! ## association-list stores, thin packs -/
+
+theorem lookup_some_mem {l : List (Id × Obj)} {x : Id} {o : Obj} (h : l.lookup x = some o) :
+    (x, o) ∈ l := by
+  induction l with
+  | nil => simp [List.lookup] at h
+  | cons p rest ih =>
+    simp only [List.lookup] at h
+    split at h
+    · rename_i heq
+      cases h
+      have : x = p.1 := by simpa using heq
+      subst this
+      simp
+    · simp [ih h]
+
+theorem wellTyped_ofList (l : List (Id × Obj)) (h : wellTypedB l = true) : WellTyped (ofList l) := by
+  intro x o hs
+  have hm := lookup_some_mem (l := l) hs
+  simp only [wellTypedB, List.all_eq_true] at h
+  have ho := h _ hm
+  cases o with
+  | commit t ps => simpa [wellTypedObjB] using ho
+  | tree es =>
+    simp only [wellTypedObjB, List.all_eq_true, Bool.and_eq_true] at ho
+    intro e he
+    have := ho e he
+    refine ⟨?_, ?_⟩
+    · intro hk; simpa [hk] using this.1
+    · intro hk; simpa [hk] using this.2
+  | blob => trivial
+  | tag t => trivial
+
+theorem completeThin_selfContained {have_ : Id → Bool} {p p' : List PackEntry}
+    (h : completeThin have_ p = .ok p') : SelfContained p' := by
+  unfold completeThin at h
+  split at h
+  · cases h
+    intro e he b hb
+    simp only [List.mem_append, List.mem_map] at he
+    rcases he with he | ⟨b', _, rfl⟩
+    · by_cases hin : b ∈ p.map (·.1)
+      · simp only [List.map_append, List.mem_append]
+        exact .inl hin
+      · have : b ∈ extRefs p := by
+          simp only [extRefs, List.mem_filter, List.mem_filterMap]
+          exact ⟨⟨e, he, hb⟩, by simpa using hin⟩
+        simp only [List.map_append, List.mem_append, List.map_map]
+        refine .inr ?_
+        simp only [List.mem_map, Function.comp]
+        exact ⟨b, List.mem_eraseDups.mpr this, rfl⟩
+    · simp at hb
+  · cases h
+
+deriving instance DecidableEq for Except
+
 end Dulwich.Missing
